@@ -296,8 +296,9 @@ void run_cell(Desc const& D, vf::Case& cs)
                     if (r != 0) { cmp(O_IDENT, true, 7); }
                 } else {
                     i128 const ci = (i128)c, ri = (i128)r;
-                    i128 const pi = ci * ri;
-                    bool const prod_ok = (ld)pi >= D.rep_lo && (ld)pi <= D.rep_hi && (pi <= ((i128)1 << 64)) && (pi >= -((i128)1 << 64));
+                    i128 pi = 0;
+                    bool const pi_fits = !__builtin_mul_overflow(ci, ri, &pi); // both factors can be close to 2^64
+                    bool const prod_ok = pi_fits && (ld)pi >= D.rep_lo && (ld)pi <= D.rep_hi && (pi <= ((i128)1 << 64)) && (pi >= -((i128)1 << 64));
                     if (prod_ok) { cmp(O_MULEQ, true, (ld)pi); }
                     bool const div_ok = ri != 0 && (ld)(ci / (ri == 0 ? 1 : ri)) <= D.rep_hi && (ld)(ci / (ri == 0 ? 1 : ri)) >= D.rep_lo;
                     if (div_ok) {
